@@ -136,6 +136,16 @@ def gen_trapezoid(ctx):
             lean, info = V.translate(core.REPO, sp)
             parts.append(lean)
             infos[sp.func] = info
+        # the pinned schedule statement, read with NumPy's semantics of a tail-slice assignment (the sha256 above was checked by the
+        # translation of compute_weights: this definition is what that exact text says for an integer `nlive` / an array `nlive`)
+        parts.append(
+            f"/-- GENERATED (recognised by its sha256 {COMPUTE_WEIGHTS_SCHEDULE_SHA}) from `nessai/posterior.py`, `compute_weights`: the statement\n"
+            "    `if isinstance(nlive, (int, float)): nlive_per_iteration = nlive * np.ones_like(samples); nlive_per_iteration[-nlive:] =\n"
+            "    np.arange(nlive, 0, -1, dtype=float)  else: (len(nlive) != len(samples) -> ValueError); nlive_per_iteration = nlive.copy()` -/\n"
+            "def compute_weights_schedule (n_samples : Nat) (nlive : NLive) : Except Err (List Nat) :=\n"
+            "  match nlive with\n"
+            "  | .int n => npAssignTail (List.replicate n_samples n) n (countdown n)\n"
+            "  | .arr ns => if ns.length ≠ n_samples then .error .valueErr else .ok ns\n")
     except py2lean.TranslationError as e:
         ctx.broken(f"translator: {e}", "Gen/Trapezoid.lean was left as it was (the theorems are about the last translatable source)")
         return
